@@ -9,10 +9,11 @@ EXTENDS Ast, TLC, Json, IOUtils
 
 CONSTANT MaxLen
 
-Insts == {"m", "a", "b", "c", "d", "p", "u", "v"}
+Insts == {"m", "a", "b", "c", "d", "p", "u", "v", "k"}
    \* module-level, make(10), make(20), nested make2(30), make3(): middle function shadows a captured name,
    \* p: the captured variable is a parameter (make4(40)); u, v: closures made in iterations 0 and 1 of a loop
-   \* body over a body-local variable (each iteration has its own variable)
+   \* body over a body-local variable (each iteration has its own variable); k: closures made inside a method over
+   \* a local of the method
 Fns == {"g", "i", "l", "t", "o"}    \* reader, modify-writer, local-writer, typed local-writer (`x: int = x + 100`),
                                     \* reader whose only use of the captured name is the fallback of an `or`
 Vias == {"direct", "shadow", "plain"}
@@ -58,6 +59,11 @@ Prologue ==
                                ExprS(MCall(V("out"), "push", <<V("l")>>)), ExprS(MCall(V("out"), "push", <<V("t")>>)),
                                ExprS(MCall(V("out"), "push", <<V("o")>>))>>),
                         Ret(V("out"))>>)),
+      [k |-> "class", n |-> "Maker", export |-> FALSE, fields |-> <<[n |-> "base", ty |-> "int"]>>,
+       ctor |-> <<[ps |-> <<P("b", "int")>>, b |-> <<Assign(Fld(Self, "base"), "=", V("b"))>>]>>,
+       methods |-> <<[n |-> "make", ps |-> <<>>, rt |-> "[" \o FT \o "...]",
+                      b |-> <<Let("x", Bin("+", Fld(Self, "base"), I(5)))>> \o Three]>>],
+      Let("mkr", New("Maker", <<I(50)>>)),
       Let("use", Fn("use", <<P("f", FT)>>, "int", <<Let("x", I(99)), Ret(Call(V("f"), <<>>))>>)),
       Let("use2", Fn("use2", <<P("f", FT)>>, "int", <<Ret(Call(V("f"), <<>>))>>)),
       Let("a", Call(V("make"), <<I(10)>>)), Let("b", Call(V("make"), <<I(20)>>)),
@@ -70,6 +76,8 @@ Prologue ==
       Let("w", Call(V("make5"), <<>>)),
       Let("ug", Idx(V("w"), I(0))), Let("ui", Idx(V("w"), I(1))), Let("ul", Idx(V("w"), I(2))), Let("ut", Idx(V("w"), I(3))), Let("uo", Idx(V("w"), I(4))),
       Let("vg", Idx(V("w"), I(5))), Let("vi", Idx(V("w"), I(6))), Let("vl", Idx(V("w"), I(7))), Let("vt", Idx(V("w"), I(8))), Let("vo", Idx(V("w"), I(9))),
+      Let("k", MCall(V("mkr"), "make", <<>>)),
+      Let("kg", Idx(V("k"), I(0))), Let("ki", Idx(V("k"), I(1))), Let("kl", Idx(V("k"), I(2))), Let("kt", Idx(V("k"), I(3))), Let("ko", Idx(V("k"), I(4))),
       Let("d", Call(V("make3"), <<>>)),
       Let("dg", Idx(V("d"), I(0))), Let("di", Idx(V("d"), I(1))), Let("dl", Idx(V("d"), I(2))), Let("dt", Idx(V("d"), I(3))), Let("do", Idx(V("d"), I(4)))>>
 
